@@ -282,6 +282,7 @@ type caseB struct {
 	w       *benchfmt.Writer
 	mutated bool
 	cr      bool
+	binDiff bool // stdout of the built benchfilter binary differs from the in-process replay
 }
 
 func newCase(kind string) *caseB {
@@ -382,6 +383,7 @@ func (c *caseB) finish(id int, out *strings.Builder) {
 	}
 	fmt.Fprintf(out, "case %d kind=%s wf=%d cr=%d h=%s fmt=%s wbytes=%s nums=%s tidy=%s uni=%s tag=%s\n",
 		id, c.kind, b2i(c.wf), b2i(c.cr), h, fmtTbl, hx.Hex(impl), tbl(t.nums), tbl(t.tidy), tbl(t.uni), tagStr(c.tags))
+	fmt.Fprintf(out, "obs %d fmt=%s\n", id, fmtTbl)
 	fmt.Fprintf(out, "obs %d bytes=%s\n", id, hx.Hex(impl))
 
 	var want []string
@@ -424,6 +426,9 @@ func (c *caseB) finish(id int, out *strings.Builder) {
 		extra := ""
 		if c.mutated {
 			extra = " writer-mutated-record"
+		}
+		if c.binDiff {
+			extra += " benchfilter-binary-differs"
 		}
 		fmt.Fprintf(out, "sobs %d rt=%s leak=%s%s\n", id, joinOr(",", st), joinOr(",", leak), extra)
 	}
